@@ -31,6 +31,8 @@ mod ser_store;
 mod suite_pipeline;
 mod resolve_ref;
 mod suite_programs;
+mod suite_unify;
+mod suite_parser;
 
 use std::env;
 
@@ -54,6 +56,8 @@ fn main() {
                 "lexer" => suite_lexer::run(&mut out, &tier, seed),
                 "pipeline" => suite_pipeline::run(&mut out, &tier, seed),
                 "programs" => suite_programs::run(&mut out, &tier, seed),
+                "unify" => suite_unify::run(&mut out, &tier, seed),
+                "parser" => suite_parser::run(&mut out, &tier, seed),
                 "progstat" => suite_progstat::run(&mut out, &tier, seed),
                 _ => {
                     eprintln!("unknown suite {suite}");
